@@ -259,6 +259,12 @@ func init() {
 		if !ok {
 			reflectPanic("reflect: call of reflect.Value.MapIndex on " + kindOf(rV2T(args[0]).t).String() + " Value")
 		}
+		if !rvValid(args[1]) {
+			reflectPanic("reflect: call of reflect.Value.MapIndex with zero Value key")
+		}
+		if !types.AssignableTo(rV2T(args[1]).t, mt.Key()) {
+			reflectPanic("reflect.Value.MapIndex: value of type " + typeString(rV2T(args[1]).t) + " is not assignable to type " + typeString(mt.Key()))
+		}
 		k := boxFor(mt.Key(), rV2T(args[1]).t, rV2V(args[1]))
 		switch m := rV2V(args[0]).(type) {
 		case map[value]value:
